@@ -45,6 +45,14 @@ CHECKS = {
             "bounded-exhaustive enumeration of configurations (deviation bound 1) x extreme sizes x qp extremes x contents in an ASan+UBSan build; deadlock detection by the controlled scheduler",
             "Every configuration within deviation bound 1 of the base plus extreme picture shapes, qp 0/63 and all contents is encoded under ASan+UBSan; any sanitizer report, error packet, deadlock, watchdog overrun or teardown error is a violation keyed by (kind, function / configuration class).",
             "UBSan restricted to arithmetic UB with observable effect; sizes <= 4096x64 / 64x2160 (4096x2160 thorough)", "4/C11"),
+    "C27": ("encdrv under sched", "model_checking",
+            "exhaustive enumeration of application call patterns (all 2^N drain/skip patterns for small N, bounded departures for larger N) x configurations x drain modes x scheduler priority policies on the real library",
+            "All 2^N pacing patterns for N<=5 (6 thorough) and all patterns with <=2 departures from always-drain / k-periodic / end-only for N=9 (17, 24 thorough) are executed under the controlled scheduler; always-drain must complete, every completing pattern must give identical packets and recon.",
+            "quiescence-based definition of 'currently available'; 64x64; canonical schedules of two priority policies", "4/C27"),
+    "C09": ("decdrv under sched + hook H1", "model_checking",
+            "stateless model checking of the multi-threaded decoder under the controlled scheduler (busy-wait loops and progress stores hooked): all schedules with <= 1 delay (2 thorough) for 2-4 threads; canonical/mirrored schedules up to 16 threads under ASan+UBSan",
+            "Every schedule with at most one delay of complete decode sessions (threads 2,3,(4)) on tiled / superres / SB128 / 10-bit / hierarchical streams is executed; pictures must equal the single-thread decode, no deadlock/livelock/crash, teardown must return.",
+            "volatile-flag handshakes assumed acquire/release (x86); data races not decided (no TSan pass in this tier); encoder-produced streams <= 256x256", "4/C09"),
 }
 
 NOT_YET = {}
